@@ -73,6 +73,9 @@ TEMPLATES = [
     # a pair for the history search: the first discards the results of standard-library calls in expression statements, the second checks the same results against typeshed-only bases
     "import io, subprocess\ndef f(path: str) -> None:\n    open(path, 'w')\n    open(path, 'rb')\n    io.StringIO()\n    iter([{LA}])\n    path.encode()\n    subprocess.Popen(path)\n    sorted([{LA}, {LB}])\n",
     "import io, subprocess\ndef tt(f: TextIO) -> None: ...\ndef tb(f: BinaryIO) -> None: ...\ndef ti(f: IO[str]) -> None: ...\ndef it(f: Iterator[{A}]) -> None: ...\ndef cm(f: ContextManager[Any]) -> None: ...\ndef f(path: str) -> None:\n    tt(open(path, 'w'))\n    tb(open(path, 'rb'))\n    ti(io.StringIO())\n    it(iter([{LA}]))\n    cm(subprocess.Popen(path))\n    cm(open(path))\n    tt(open(path, 'rb'))\n",
+    # a second pair for the history search: classes that subclass typeshed protocol ABCs and override their methods, then ordinary classes passed where those protocols are expected
+    "class Bag(Sized):\n    def __len__(self) -> int: return 0\nclass Its(Iterable[{A}]):\n    def __iter__(self) -> Iterator[{A}]: return iter(())\nclass Cont(Container[{A}]):\n    def __contains__(self, x: object) -> bool: return False\nclass Hs(Hashable):\n    def __hash__(self) -> int: return 0\nclass Rv(Reversible[{A}]):\n    def __reversed__(self) -> Iterator[{A}]: return iter(())\n    def __iter__(self) -> Iterator[{A}]: return iter(())\n",
+    "class Box:\n    def __len__(self) -> int: return 1\nclass Box2:\n    def __iter__(self) -> Iterator[{A}]: return iter(())\nclass Box3:\n    def __contains__(self, x: object) -> bool: return True\nclass Box4:\n    def __reversed__(self) -> Iterator[{A}]: return iter(())\n    def __iter__(self) -> Iterator[{A}]: return iter(())\ndef ts(x: Sized) -> None: ...\ndef ti(x: Iterable[{A}]) -> None: ...\ndef tc(x: Container[{A}]) -> None: ...\ndef th(x: Hashable) -> None: ...\ndef tr(x: Reversible[{A}]) -> None: ...\ndef f() -> None:\n    ts(Box())\n    ti(Box2())\n    tc(Box3())\n    th(Box())\n    tr(Box4())\n    ts(Box2())\n",
     # --- order-sensitive programs: the result order is derived from a set / a cache inside pyanalyze rather than from the declared union
     "def f(x: object, y: object) -> None:\n    if isinstance(x, {A}) or isinstance(x, {B}) or x is None:\n        reveal_type(x)\n    if isinstance(y, {B}) or y == {LA} or isinstance(y, {A}):\n        reveal_type(y)\n    if not (isinstance(x, {A}) and isinstance(y, {A})):\n        reveal_type(x)\n",
     "def f() -> None:\n    try:\n        v = {LA}\n        v = {LB}\n        v = 2.0\n        w = {LC}\n        w = None\n    except Exception:\n        pass\n    reveal_type(v)\n    reveal_type(w)\n    with open('x') as fh:\n        u = {LA}\n        u = {LB}\n        u = b''\n    reveal_type(u)\n",
@@ -110,7 +113,7 @@ def corpus(tier):
 def bounds(tier):
     _install()
     return {"corpus": len(corpus(tier)), "schedule_deviations": "1 site" if tier == "quick" else "1 occurrence, 2 sites", "history_depth": 2 if tier == "quick" else 3,
-            "history_alphabet": 14 if tier == "quick" else 18, "seeds": 8 if tier == "quick" else 32,
+            "history_alphabet": 16 if tier == "quick" else 20, "seeds": 8 if tier == "quick" else 32,
             "harvested_programs": len(__import__("props.c10_harvest", fromlist=["x"]).hcorpus()), "harvested_schedules": "1 site (rev)" if tier == "quick" else "1 site (rev, rot1, swap01)",
             "harvested_seeds": 6 if tier == "quick" else 24, "harvested_histories": "corpus in order, in reverse order" + ("" if tier == "quick" else ", every program first and then the corpus in order")}
 
@@ -118,7 +121,7 @@ def bounds(tier):
 def units(tier):
     n = len(corpus(tier))
     u = [("sched", tier, i) for i in range(n)]
-    k = 14 if tier == "quick" else 18
+    k = 16 if tier == "quick" else 20
     u += [("hist", tier, i) for i in range(k)]
     u += [("seeds", tier, 0), ("typing", tier, 0)]
     # second corpus: the programs of pyanalyze's own test-suite (props/c10_harvest.py)
@@ -262,7 +265,7 @@ def _in_child(fn):
 
 
 # history alphabet as (template, variant): colliding pairs first (same template in two variants; the swapped variant spells the same unions in the other order)
-HIST_ALPHA = [pidx(-5, 0), pidx(-4, 0), pidx(-1, 0), pidx(-1, "s"), pidx(8, 0), pidx(8, 1), pidx(0, 0), pidx(0, "s"), pidx(16, 0), pidx(16, 1), pidx(5, 0), pidx(5, "s"), pidx(-3, 0), pidx(-3, "s"),
+HIST_ALPHA = [pidx(-7, 0), pidx(-6, 0), pidx(-5, 0), pidx(-4, 0), pidx(-1, 0), pidx(-1, "s"), pidx(8, 0), pidx(8, 1), pidx(0, 0), pidx(0, "s"), pidx(16, 0), pidx(16, 1), pidx(5, 0), pidx(5, "s"), pidx(-3, 0), pidx(-3, "s"),
               pidx(4, 0), pidx(4, 1), pidx(12, 0), pidx(12, 1)]
 
 
@@ -270,7 +273,7 @@ def _hist(res, tier, first, only=None):
     _install()
     import pa.run      # import pyanalyze in the parent; no check is run here
     progs = corpus(tier)
-    k = 14 if tier == "quick" else 18
+    k = 16 if tier == "quick" else 20
     alpha = [a for a in HIST_ALPHA[:k] if a < len(progs)]
     depth = 2 if tier == "quick" else 3
 
